@@ -1034,7 +1034,7 @@ impl CodegenContext {
             Token::ProgramCounterDefinition { value, .. } => {
                 if let Some(pc) = self.evaluate_expression_as_i64(value, true)? {
                     if let Some(seg) = self.try_current_segment_mut() {
-                        seg.set_pc(pc);
+                        seg.set_pc(pc - seg.target_offset());
                     }
                 }
             }
